@@ -26,7 +26,8 @@ ASSUMPTIONS = ["subscribers are async callables that raise inside the coroutine 
                "change classification comes from the reference model fed the same bytes"]
 REQUIRED_OBS = ["must_verdicts", "must_not_verdicts", "repeat_frames", "raising_subscribers",
                 "zone_to_ac_forwarding", "unsubscribed_silent", "double_subscription",
-                "after_reinit", "single_field_changes", "self_unsubscribed_in_callback"]
+                "after_reinit", "single_field_changes", "self_unsubscribed_in_callback",
+                "bound_method_subscribers"]
 SOAK = True   # also judged by the whole-run monitors of the soak sessions (vf/soak.py)
 BUDGET = {"quick": 100, "thorough": 1500}
 
@@ -75,8 +76,16 @@ def run_case(case):
             # one is sometimes first, sometimes last)
             s = H.Sub(log, f"{kind}:{ent}:{i}", raises=bool(mask >> (i % 4) & 1) and i < 8,
                       hashv=rnd.getrandbits(20))
-            subs.append({"sub": s, "kind": kind, "ent": ent, "attach": attach,
-                         "detach": detach, "on": False, "twice": False})
+            # a third of the subscribers are registered as bound methods: every subscribe /
+            # unsubscribe call then passes an equal but not identical callable
+            bound = rnd.random() < 0.35
+            fn = (lambda: s.on_update) if bound else (lambda: s)
+            if bound:
+                obs["bound_method_subscribers"] = obs.get("bound_method_subscribers", 0) + 1
+            subs.append({"sub": s, "kind": kind, "ent": ent,
+                         "attach": lambda _x, a=attach, f=fn: a(f()),
+                         "detach": lambda _x, d=detach, f=fn: d(f()),
+                         "on": False, "twice": False})
             return s
 
         mk("at", at.airtouch_id, at, at.subscribe, at.unsubscribe)
